@@ -65,6 +65,9 @@ func (c09Engine) Generate(seed uint64, prop, tier string) (json.RawMessage, erro
 	for i := 0; i < n; i++ {
 		var st c09Step
 		switch r := g.Intn(100); {
+		case r < 1 && i < 6:
+			// a long log (compaction later deletes more than 1000 entries in one range)
+			st = c09Step{K: "store", Mode: "append", N: g.Range(1100, 2600), Type: g.Pick2(0, 0, 1), Term: 2, Pay: "json", Ext: g.Pick([]string{"", "x"}), At: 1}
 		case r < 35:
 			st = c09Step{K: "store", Mode: "append", N: g.Range(1, 4), Type: g.Pick2(0, 0, 0, 1, 2, 3, 4), Term: uint64(g.Range(1, 5)), Pay: g.Pick([]string{"json", "proto", "jsonid", "protoid", "text", "bin", "empty", "p"}), Ext: g.Pick([]string{"", "", "x", "\x00\xff"}), At: g.Intn(4), Proto: g.Chance(1, 4)}
 			switch m := g.Intn(12); {
@@ -507,9 +510,10 @@ func (r *c09Run) doStep(st c09Step) error {
 			if typ == raft.LogCommand && (pay == "text" || pay == "bin" || pay == "empty" || pay == "p") {
 				pay = "json" // a command entry always carries a replicated message (DESIGN §3.8)
 			}
-			l := &raft.Log{Index: idx, Term: st.Term, Type: typ, Data: payload(pay, idx, r.salt*10+k), AppendedAt: appendedAt(st.At, r.salt)}
-			if st.Ext != "" {
-				l.Extensions = []byte(st.Ext)
+			l := &raft.Log{Index: idx, Term: st.Term, Type: typ, Data: payload(pay, idx, r.salt*10+k), AppendedAt: appendedAt(st.At+k, r.salt)}
+			// entries of one batch differ in whether they carry extensions
+			if st.Ext != "" && (k+st.A)%2 == 0 {
+				l.Extensions = []byte(fmt.Sprintf("%s#%d", st.Ext, idx%7))
 			}
 			batch = append(batch, l)
 		}
@@ -538,6 +542,9 @@ func (r *c09Run) doStep(st c09Step) error {
 		r.res.Add("stores", 1)
 		if st.Mode == "big" {
 			r.res.Add("stores_big_index", 1)
+		}
+		if n > 1000 {
+			r.res.Add("stores_over_1000_entries", 1)
 		}
 	case "delrange":
 		if len(idxs) == 0 && st.Mode != "beyond" {
@@ -589,6 +596,9 @@ func (r *c09Run) doStep(st c09Step) error {
 		r.res.Add("delranges", 1)
 		if n > 0 {
 			r.res.Add("delranges_nonempty", 1)
+		}
+		if n > 1000 {
+			r.res.Add("delranges_over_1000_entries", 1)
 		}
 	case "get":
 		var i uint64
